@@ -45,7 +45,7 @@ def deriv(f, x, h):
 @st.composite
 def eos_specs(draw, tier):
     return {"eos": draw(st.sampled_from(EOS_NAMES)), "E0": draw(st.floats(-50, 5)), "B0": draw(st.floats(0.05, 4)), "Bp": draw(st.floats(2, 8)),
-            "V0": draw(st.floats(5, 500)), "key": draw(st.integers(0, 2**32 - 1)), "npts": draw(st.integers(5, 14)),
+            "V0": draw(st.floats(5, 500)), "key": draw(st.integers(0, 2**32 - 1)), "npts": draw(st.sampled_from([4, 4, 5, 6, 7, 8, 9, 10, 12, 14])),
             "lo": draw(st.floats(0.85, 0.97)), "hi": draw(st.floats(1.03, 1.15))}
 
 
@@ -88,7 +88,11 @@ def run_eos(spec):
         p = fit_to_eos(V, Ev, eos)
     except RuntimeError as e:
         if "itting to EOS" in str(e):
-            return Out(nontrivial=False, rejected=True, classes=["fit_refused:" + spec["eos"], "realistic" if realistic else "extreme"])
+            if realistic:
+                # four parameters, >= 4 exact points of the very function being fitted, ordinary magnitudes: nothing to refuse
+                return Out(ok=False, msg="fit_to_eos refuses exact %s data (%d volumes in [%.3f, %.3f] V0; E0=%g B0=%g B0'=%g V0=%g): %s"
+                           % (spec["eos"], len(V), spec["lo"], spec["hi"], E0, B0, Bp, V0, e))
+            return Out(nontrivial=False, rejected=True, classes=["fit_refused:" + spec["eos"], "extreme"])
         return Out(ok=False, msg="fit_to_eos raised %r on exact %s data" % (e, spec["eos"]))
     except Exception as e:
         return Out(ok=False, msg="fit_to_eos raised %r on exact %s data" % (e, spec["eos"]))
@@ -109,12 +113,13 @@ def run_eos(spec):
             return Out(ok=True, nontrivial=False, classes=["excluded_known:F-v", spec["eos"]], info={"resid": float(resid)})
         return Out(ok=False, info={"err": e}, msg="fit_to_eos on exact %s data returns %s instead of (E0,B0,B0',V0)=(%g,%g,%g,%g): rel %.3e"
                    % (spec["eos"], np.array(p).tolist(), E0, B0, Bp, V0, e))
-    return Out(ok=True, nontrivial=True, classes=[spec["eos"]], info={"err": max(max(errs.values()), e)})
+    return Out(ok=True, nontrivial=True, classes=[spec["eos"], "npts:%d" % len(V)], info={"err": max(max(errs.values()), e)})
 
 
 @st.composite
 def qha_specs(draw, tier):
-    return {"eos": draw(st.sampled_from(EOS_NAMES)), "key": draw(st.integers(0, 2**32 - 1)), "nT": draw(st.integers(6, 40)), "nV": draw(st.integers(5, 13)),
+    return {"eos": draw(st.sampled_from(EOS_NAMES)), "key": draw(st.integers(0, 2**32 - 1)), "nT": draw(st.integers(6, 40)), "nV": draw(st.sampled_from([4, 5, 5, 6, 7, 8, 9, 11, 13])),
+            "epf": draw(st.sampled_from([None, None, 2.5, 96.485])),
             "dT": draw(st.sampled_from([10.0, 25.0, 50.0])), "pressure": draw(st.sampled_from([None, None, 0.5, 3.0, 7.0, 20.0, -2.0])),
             "el": draw(st.sampled_from(["zeros", "V", "TV"])), "t_max": draw(st.sampled_from([None, None, "inner"])),
             "tgrid": draw(st.sampled_from(["uniform", "uniform", "piecewise", "irregular"])),
@@ -178,7 +183,7 @@ def run_qha(spec):
     results = []
     for rep in range(2 if spec["twice"] else 1):
         try:
-            q = PhonopyQHA(eos=spec["eos"], pressure=Pg, t_max=t_max, verbose=False, **inputs)
+            q = PhonopyQHA(eos=spec["eos"], pressure=Pg, t_max=t_max, verbose=False, energy_plot_factor=spec.get("epf"), **inputs)
         except RuntimeError as e:
             if "fitting to EOS" in str(e) or "Fitting to EOS" in str(e):
                 # scipy's least squares met a numerical warning on the way: documented refusal, never a wrong answer
@@ -219,13 +224,46 @@ def run_qha(spec):
         if not v < tol:
             return Out(ok=False, info={"err": float(v)}, msg="QHA %s differs from the known curve: rel %.3e (eos %s, pressure %r GPa, electronic %s, t_max %r, "
                        "container %s, run #%d)" % (k, v, spec["eos"], Pg, spec["el"], t_max, spec["container"], len(results)))
+    # writing the result files is read-only with respect to the results
+    import os
+    import shutil
+    import tempfile
+
+    def snapshot(qq):
+        return [np.array(x, dtype=float, copy=True) for x in (qq.volume_temperature, qq.gibbs_temperature, qq.bulk_modulus_temperature, qq.thermal_expansion,
+                                                               qq.heat_capacity_P_numerical, qq.helmholtz_volume)]
+
+    before = snapshot(q)
+    tdir = tempfile.mkdtemp(prefix="c20-", dir=os.environ.get("VERIF_TMP", "/var/tmp"))
+    cwd = os.getcwd()
+    os.chdir(tdir)
+    try:
+        q.write_helmholtz_volume()
+        q.write_helmholtz_volume_fitted(thin_number=3)
+        q.write_helmholtz_volume_fitted(thin_number=2)
+        q.write_volume_temperature()
+        q.write_thermal_expansion()
+        q.write_gibbs_temperature()
+        q.write_bulk_modulus_temperature()
+        q.write_heat_capacity_P_numerical()
+        q.write_gruneisen_temperature()
+    except Exception as e:
+        return Out(ok=False, msg="a write_* method of PhonopyQHA raised %r (energy_plot_factor %r)" % (e, spec.get("epf")))
+    finally:
+        os.chdir(cwd)
+        shutil.rmtree(tdir, ignore_errors=True)
+    for name, x, y in zip(("volume_temperature", "gibbs_temperature", "bulk_modulus_temperature", "thermal_expansion", "heat_capacity_P_numerical",
+                           "helmholtz_volume"), before, snapshot(q)):
+        if x.shape != y.shape or not np.array_equal(x, y):
+            return Out(ok=False, msg="PhonopyQHA.%s changed after the write_* methods were called (energy_plot_factor %r): max change %.3e"
+                       % (name, spec.get("epf"), float(np.abs(x - y).max()) if x.shape == y.shape else -1))
     if len(results) == 2:
         a, b = results
         if np.abs(np.array(a.volume_temperature) - np.array(b.volume_temperature)).max() > 1e-12:
             return Out(ok=False, msg="two consecutive analyses of the same input arrays differ")
     nontriv = nT >= 3 and (Pg is not None or spec["el"] == "TV")
     return Out(ok=True, nontrivial=nontriv, classes=[spec["eos"], "P:%s" % ("none" if Pg is None else "set"), "el:" + spec["el"],
-                                                     "tmax" if t_max else "notmax", "tgrid:" + spec.get("tgrid", "uniform"), "convex" if spec["convex"] else "concave", spec["container"]],
+                                                     "tmax" if t_max else "notmax", "tgrid:" + spec.get("tgrid", "uniform"), "nV:%d" % nV, "epf:%s" % spec.get("epf"), "convex" if spec["convex"] else "concave", spec["container"]],
                info={"err": float(max(errs.values()))})
 
 
